@@ -43,7 +43,7 @@ var confirmedCounts = map[string]map[string][2]int{ // rule -> prop -> {default,
 	"R34": {"C06": {2, 2}},
 	"R35": {"C12": {11, 11}, "C13": {3, 3}},
 	"R36": {"C01": {6, 6}, "C06": {6, 6}, "C07": {3, 3}, "C09": {8, 8}},
-	"R37": {"C01": {3, 3}, "C06": {3, 3}},
+	"R37": {"C01": {3, 3}, "C06": {3, 3}, "C10": {0, 0}},
 }
 
 func floorFor(rule string) func(cfg Config, prop string) int {
